@@ -183,7 +183,9 @@ var randomScriptOpts = scriptOpts{maxNodes: 3, maxDepth: 3, maxBody: 5, random: 
 		}
 		g.lineID++
 		bad := rapid.SampledFrom([]*Expr{call("dice", num("0")), call("random_range", num("5"), num("1")), call("dice", str("six")), call("random_range", varRef("k1")),
-			call("round", str("x")), call("nosuch", num("1"), str("a"))}).Draw(g.t, "bad")
+			call("round", str("x")), call("nosuch", num("1"), str("a")),
+			// misspelt names, some of them as close to one registered function as to another
+			call("dic", num("6")), call("px", str("a")), call("flor", num("1.5")), call("de", num("1")), call("rount", num("2")), call("visitd", str("A")), call("Dice", num("6"))}).Draw(g.t, "bad")
 		return &Stmt{K: "line", Text: []TextPart{{S: fmt.Sprintf("L%d ", g.lineID)}, {E: bad}}}
 	}}
 
@@ -465,3 +467,69 @@ var c09Ranges = Register(Prop[c09RangeCase]{
 })
 
 func TestC09Ranges(t *testing.T) { Check(t, c09Ranges) }
+
+// ---------------------------------------------------------------------------------------
+// ranges at volume: values at the very edge of a range are rare (a draw that rounds up to the excluded upper bound,
+// say), so the range statement is also checked over hundreds of thousands of draws per case, inside the script itself
+
+type c09VolumeCase struct {
+	Seed  string `json:"seed"`
+	Sides int    `json:"sides"`
+	Lo    int    `json:"lo"`
+	Span  int    `json:"span"`
+	Laps  int    `json:"laps"` // in units of 200 evaluations of the 64-draw condition
+}
+
+func runC09Volume(c c09VolumeCase) Verdict {
+	var terms []string
+	for i := 0; i < 64; i++ {
+		switch i {
+		case 10, 40:
+			terms = append(terms, "random() < 0")
+		case 20:
+			terms = append(terms, fmt.Sprintf("dice(%d) > %d", c.Sides, c.Sides), fmt.Sprintf("dice(%d) < 1", c.Sides))
+		case 30:
+			terms = append(terms, fmt.Sprintf("random_range(%d, %d) > %d", c.Lo, c.Lo+c.Span, c.Lo+c.Span), fmt.Sprintf("random_range(%d, %d) < %d", c.Lo, c.Lo+c.Span, c.Lo))
+		default:
+			terms = append(terms, "random() >= 1")
+		}
+	}
+	src := "title: Start\n---\n<<set $i to 0>>\n<<jump Loop>>\n===\ntitle: Loop\n---\n<<if " + strings.Join(terms, " or ") +
+		">>\nout of range\n<<endif>>\n<<set $i += 1>>\n<<if $i % 200 == 0>>\ntick\n<<endif>>\n<<jump Loop>>\n===\n"
+	dr, err := ysgo.NewDialogueRunner(nil, c.Seed, strings.NewReader(src))
+	if err != nil {
+		return failf("script does not load with seed %q: %v", c.Seed, err)
+	}
+	for lap := 0; lap < c.Laps; lap++ {
+		el, err := dr.Next(0)
+		if err != nil {
+			return failf("seed %q: Next failed: %v\nscript:\n%s", c.Seed, err, src)
+		}
+		if el == nil || el.Line == nil || el.Line.Text != "tick" {
+			return failf("seed %q: between evaluation %d and %d of the condition one of its draws left its range (random() in [0,1), dice(n) in [1,n], random_range(a,b) in [a,b]): the script showed %s instead of the tick line\nscript:\n%s",
+				c.Seed, lap*200, (lap+1)*200, describeElement(el), src)
+		}
+	}
+	return Verdict{NonTrivial: c.Laps >= 5, Classes: []string{fmt.Sprintf("draws=%d", c.Laps*200*len(terms))}}
+}
+
+var c09Volume = Register(Prop[c09VolumeCase]{
+	ID: "C09", Name: "ranges-at-volume",
+	Gen: func(t *rapid.T) c09VolumeCase {
+		return c09VolumeCase{Seed: genSeedLegal(t), Sides: rapid.SampledFrom([]int{1, 2, 3, 6, 20, 100}).Draw(t, "sides"), Lo: rapid.IntRange(-5, 5).Draw(t, "lo"),
+			Span: rapid.SampledFrom([]int{0, 1, 2, 7}).Draw(t, "span"), Laps: envInt("VERIF_C09_LAPS", 20)}
+	},
+	Run: runC09Volume,
+})
+
+func TestC09Volume(t *testing.T) { Check(t, c09Volume) }
+
+func describeElement(el *ysgo.DialogueElement) string {
+	switch {
+	case el == nil:
+		return "the end of the dialogue"
+	case el.Line != nil:
+		return fmt.Sprintf("the line %q", el.Line.Text)
+	}
+	return fmt.Sprintf("%d options", len(el.Options))
+}
